@@ -206,7 +206,7 @@ B_FIELDS = {
     "pretty_print": ([True], ["picosvg", "untouchedsvg"]),
     "use_pngquant": ([False], ["cbdt", "sbix"]),
     "use_zopflipng": ([False], ["cbdt", "sbix"]),
-    "pngquant_flags": (["--speed 10 --quality 40-60", "--speed 11 --posterize 2", "--speed 11 --quality 100-100"], ["cbdt", "sbix"]),
+    "pngquant_flags": (["--speed 10 --quality 40-60", "--speed 11 --posterize 2", "--speed 3 --quality 100-100"], ["cbdt", "sbix"]),
     "ignore_reuse_error": ([False], ["glyf_colr_1", "picosvg"]),
     "glyphmap_generator": (["my_glyphmap"], ["glyf_colr_1", "glyf", "picosvg", "cbdt"]),
 }
